@@ -111,8 +111,14 @@ def run_regress(pid, run_one, extra_cases=()):
 def run_parallel(pid, script, tier, nworkers, examples_per_worker, level, rule, assumptions, seed, extra_env=None, exhaustive=False, regress_one=None, extra_cases=()):
     """spawn workers, aggregate, write evidence, print protocol lines, return exit code"""
     t0 = time.time()
+    second = bool(os.environ.get("VERIF_SECOND_BUILD"))
+    if second:
+        # second pass against the dev-profile binaries: the saved cases and the enumerated
+        # sub-domains only; the result is recorded inside the evidence of the first pass
+        nworkers = 0
     pre_fails, n_regress = run_regress(pid, regress_one, extra_cases)
-    work = os.path.join(VERIF, "work", "py", pid)
+    # (one directory per run: two runs of the same check may be under way at once)
+    work = os.path.join(VERIF, "work", "py", pid, str(os.getpid()))
     os.makedirs(work, exist_ok=True)
     os.makedirs(os.path.join(VERIF, "work", "logs"), exist_ok=True)
     procs = []
@@ -146,6 +152,8 @@ def run_parallel(pid, script, tier, nworkers, examples_per_worker, level, rule, 
             failures.setdefault(f["sig"], f)
         if r.get("error"):
             errors.append(r["error"])
+    import shutil
+    shutil.rmtree(work, ignore_errors=True)
     known = [k for k in load_known(pid) if k.get("status") == "known"]
     for k in known:
         print(f"KNOWN-FINDING: property={pid} {k.get('what', k.get('text', ''))} [signature={k['signature']} hits_this_run={agg['known_hits'].get(k['signature'], 0)}]")
@@ -172,7 +180,24 @@ def run_parallel(pid, script, tier, nworkers, examples_per_worker, level, rule, 
         "assumptions": assumptions, "wall_s": time.time() - t0, "violations": len(failures),
     }
     os.makedirs(os.path.join(VERIF, "evidence"), exist_ok=True)
-    json.dump(ev, open(os.path.join(VERIF, "evidence", f"{pid}.json"), "w"), indent=1)
+    evpath = os.path.join(VERIF, "evidence", f"{pid}.json")
+    if second:
+        if failures:
+            print("  (reported by the second pass: radar/1090 built in the dev profile, debug assertions and overflow checks on; --replay tries both builds)")
+        try:
+            base = json.load(open(evpath))
+        except Exception:
+            base = ev
+        base["coverage"]["dev_profile_pass"] = {
+            "build": "radar and 1090 as a plain `cargo build` leaves them (dev profile)",
+            "cases_replayed": n_regress, "violations": len(failures), "violation_replays": replays, "wall_s": time.time() - t0,
+        }
+        base["wall_s"] = base.get("wall_s", 0) + time.time() - t0
+        base["violations"] = base.get("violations", 0) + len(failures)
+        json.dump(base, open(evpath, "w"), indent=1)
+        print(f"{pid} {tier} (second pass, dev-profile binaries): cases={n_regress} violations={len(failures)} wall={time.time() - t0:.1f}s")
+        return 1 if failures else 0
+    json.dump(ev, open(evpath, "w"), indent=1)
     print(f"{pid} {tier}: evaluations={agg['evaluations']} distinct_nontrivial={len(agg['nontrivial'])} inconclusive={agg['inconclusive']} violations={len(failures)} wall={time.time() - t0:.1f}s")
     if failures:
         return 1
